@@ -99,6 +99,40 @@ impl<X: ToB + ?Sized> ToB for &X {
     }
 }
 
+/// how a family prints under a handful of format specs (width, fill, alignment, precision): the lossy
+/// `display()` adapter for the byte families, the path itself for the UTF-8 families
+trait FmtSpecs {
+    fn fmt_specs(&self) -> String;
+}
+fn specs_of<D: std::fmt::Display>(d: D) -> String {
+    format!("[{}] [{:.4}] [{:>12}] [{:*^9}] [{:<3}] [{:.0}] [{:+>7.2}]", d, d, d, d, d, d, d)
+}
+impl<T: for<'enc> Encoding<'enc>> FmtSpecs for Path<T> {
+    fn fmt_specs(&self) -> String {
+        specs_of(self.display())
+    }
+}
+impl<T: for<'enc> Utf8Encoding<'enc>> FmtSpecs for Utf8Path<T> {
+    fn fmt_specs(&self) -> String {
+        specs_of(self)
+    }
+}
+impl FmtSpecs for TypedPath<'_> {
+    fn fmt_specs(&self) -> String {
+        specs_of(self.display())
+    }
+}
+impl FmtSpecs for Utf8TypedPath<'_> {
+    fn fmt_specs(&self) -> String {
+        specs_of(self)
+    }
+}
+impl<X: FmtSpecs + ?Sized> FmtSpecs for &X {
+    fn fmt_specs(&self) -> String {
+        (**self).fmt_specs()
+    }
+}
+
 /// state queries of a (possibly partly consumed) component / path iterator: absoluteness, root,
 /// the remaining bytes, and the remainder viewed as a path through the type's own accessor
 trait IterQ {
@@ -207,6 +241,7 @@ macro_rules! transcript_path {
         $t.push(format!("with_file_name {}", show(&p.with_file_name($a), w)));
         $t.push(format!("with_extension {}", show(&p.with_extension($a), w)));
         $t.push(format!("to_path_buf {}", show(&p.to_path_buf(), w)));
+        $t.push(format!("y.display-specs {}", p.fmt_specs()));
         #[cfg(feature = "std")]
         {
             $t.push(format!("absolutize {}", show_o(p.absolutize().ok(), w)));
@@ -426,7 +461,13 @@ macro_rules! extras_utf8 {
 
 /// a transcript without the concrete-only `x.` lines
 fn no_x(v: &[String]) -> Vec<String> {
-    v.iter().filter(|l| !l.starts_with("x.")).cloned().collect()
+    v.iter().filter(|l| !l.starts_with("x.") && !l.starts_with("y.") && !l.starts_with("buf.y.")).cloned().collect()
+}
+
+/// a transcript without the `y.` lines (observations that legitimately differ between the byte and UTF-8
+/// families, e.g. how a Formatter's width is treated; they are compared between the two BUILDS only)
+fn no_y(v: Vec<String>) -> Vec<String> {
+    v.into_iter().filter(|l| !l.starts_with("y.") && !l.starts_with("buf.y.")).collect()
 }
 
 fn catch(f: impl FnOnce() -> Vec<String> + std::panic::UnwindSafe) -> Vec<String> {
@@ -681,8 +722,8 @@ pub fn c14(ctx: &mut Ctx, tier: &str, seed: u64) {
                 if !t && i >= 4 && (s.len() + i) % 3 != 0 {
                     continue;
                 }
-                let tb = t_bytes(win, s, a.as_bytes());
-                let tu = t_utf8(win, st, a);
+                let tb = no_y(t_bytes(win, s, a.as_bytes()));
+                let tu = no_y(t_utf8(win, st, a));
                 ctx.case(multibyte && comps(win, s).len() >= 2, (win, s, i));
                 ctx.tally(&format!("{}:{}", e, if multibyte { "multibyte" } else { "ascii" }));
                 if tb != tu || tu.iter().any(|l| l.contains("!INVALID") || l == "PANIC" || l.contains("size_hint-sane=false")) {
@@ -1014,14 +1055,14 @@ pub fn c15(ctx: &mut Ctx, tier: &str, seed: u64) {
                     continue;
                 }
                 let tb = no_x(&t_bytes(win, s, a));
-                let tt = t_typed(win, s, a);
+                let tt = no_y(t_typed(win, s, a));
                 ctx.case(comps(win, s).len() >= 2, (win, s, i));
                 if tb != tt || tt.iter().any(|l| l.contains("!VARIANT") || l == "PANIC" || l.contains("size_hint-sane=false")) {
                     let d = tt.iter().find(|l| l.contains("!VARIANT")).map(|l| format!("variant changed in `{}`", l)).unwrap_or_else(|| first_diff(&tb, &tt));
                     ctx.fail("typed-wrapper-transparent", None, format!("comps {} {}", e, hex(s)), format!("arg \"{}\": {}", lossy(a), d));
                 }
                 if let (Ok(st), Ok(sa)) = (std::str::from_utf8(s), std::str::from_utf8(a)) {
-                    let t8 = t_typed8(win, st, sa);
+                    let t8 = no_y(t_typed8(win, st, sa));
                     if tb != t8 || t8.iter().any(|l| l.contains("!VARIANT") || l == "PANIC" || l.contains("size_hint-sane=false")) {
                         let d = t8.iter().find(|l| l.contains("!VARIANT")).map(|l| format!("variant changed in `{}`", l)).unwrap_or_else(|| first_diff(&tb, &t8));
                         ctx.fail("utf8-typed-wrapper-transparent", None, format!("comps {} {}", e, hex(s)), format!("arg \"{}\": {}", lossy(a), d));
@@ -1029,12 +1070,12 @@ pub fn c15(ctx: &mut Ctx, tier: &str, seed: u64) {
                 }
                 if !win {
                     // the platform encoding is the native (Unix, on this host) encoding
-                    let tp = t_platform(s, a);
+                    let tp = no_y(t_platform(s, a));
                     if tb != tp {
                         ctx.fail("platform-equals-native", None, format!("comps u {}", hex(s)), format!("arg \"{}\": {}", lossy(a), first_diff(&tb, &tp)));
                     }
                     if let (Ok(st), Ok(sa)) = (std::str::from_utf8(s), std::str::from_utf8(a)) {
-                        let tp8 = t_platform8(st, sa);
+                        let tp8 = no_y(t_platform8(st, sa));
                         if tb != tp8 {
                             ctx.fail("utf8-platform-equals-native", None, format!("comps u {}", hex(s)), format!("arg \"{}\": {}", lossy(a), first_diff(&tb, &tp8)));
                         }
@@ -1091,6 +1132,25 @@ pub fn c15(ctx: &mut Ctx, tier: &str, seed: u64) {
                 }
             }
         }
+        // typed paths of DIFFERENT variants are never equal — borrowed, owned and mixed, either order —
+        // and the comparison returns (a mutual delegation between the mixed impls would recurse for ever)
+        {
+            ctx.evals += 1;
+            crate::util::at(format!("derive {}", hex(s)));
+            let (tu, tw) = (TypedPath::unix(s), TypedPath::windows(s));
+            let (bu, bw) = (tu.to_path_buf(), tw.to_path_buf());
+            let mut ok = tu != tw && tw != tu && bu != bw && bw != bu && tu != bw && bw != tu && tw != bu && bu != tw
+                && tu == bu && bu == tu && tw == bw && bw == tw;
+            if let Ok(st) = std::str::from_utf8(s) {
+                let (tu, tw) = (Utf8TypedPath::unix(st), Utf8TypedPath::windows(st));
+                let (bu, bw) = (tu.to_path_buf(), tw.to_path_buf());
+                ok = ok && tu != tw && tw != tu && bu != bw && bw != bu && tu != bw && bw != tu && tw != bu && bu != tw
+                    && tu == bu && bu == tu && tw == bw && bw == tw;
+            }
+            if !ok {
+                ctx.fail("typed-variants-never-equal", None, format!("derive {}", hex(s)), String::new());
+            }
+        }
         // the typed component iterators compare like the wrapped ones, and never across variants
         {
             ctx.evals += 1;
@@ -1124,6 +1184,37 @@ pub fn c15(ctx: &mut Ctx, tier: &str, seed: u64) {
             }
             if !ok {
                 ctx.fail("typed-components-compare", None, format!("derive {}", hex(s)), String::new());
+            }
+        }
+        // formatting: the typed wrappers hand the caller's Formatter (width, fill, alignment, precision)
+        // to the wrapped path, so every format spec prints what the wrapped type prints
+        {
+            ctx.evals += 1;
+            macro_rules! specs {
+                ($v:expr) => {{
+                    let v = &$v;
+                    vec![format!("{}", v), format!("{:.4}", v), format!("{:>12}", v), format!("{:*^9}", v), format!("{:<3}|", v), format!("{:.0}", v), format!("{:+>7.2}", v)]
+                }};
+            }
+            let mut ok = true;
+            for win in [false, true] {
+                let tp = if win { TypedPath::windows(s) } else { TypedPath::unix(s) };
+                let tb = tp.to_path_buf();
+                let want = if win { specs!(WindowsPath::new(s).display()) } else { specs!(UnixPath::new(s).display()) };
+                let (wb, ub0) = (WindowsPathBuf::from(s.as_slice()), UnixPathBuf::from(s.as_slice()));
+                let want_b = if win { specs!(wb.display()) } else { specs!(ub0.display()) };
+                let tbp = tb.to_path();
+                ok = ok && specs!(tp.display()) == want && specs!(tbp.display()) == want && want_b == want;
+                if let Ok(st) = std::str::from_utf8(s) {
+                    let up = if win { Utf8TypedPath::windows(st) } else { Utf8TypedPath::unix(st) };
+                    let ub = up.to_path_buf();
+                    let want8 = if win { specs!(Utf8WindowsPath::new(st)) } else { specs!(Utf8UnixPath::new(st)) };
+                    let want8b = if win { specs!(Utf8WindowsPathBuf::from(st)) } else { specs!(Utf8UnixPathBuf::from(st)) };
+                    ok = ok && specs!(&up) == want8 && specs!(&ub) == want8 && want8b == want8 && want8 == specs!(st);
+                }
+            }
+            if !ok {
+                ctx.fail("typed-display-honours-format-spec", None, format!("derive {}", hex(s)), String::new());
             }
         }
         // the `From` constructors of the typed types ARE `derive`; `try_as_ref` hands out the wrapped
@@ -1196,6 +1287,13 @@ fn constructors(s: &[u8]) -> usize {
     n += UnixPath::new(s).to_string_lossy().len() + WindowsPath::new(s).to_string_lossy().len() + TypedPath::derive(s).to_string_lossy().len();
     n += UnixPath::new(s).to_str().map_or(0, |x| x.len()) + TypedPath::derive(s).to_str().map_or(0, |x| x.len());
     n += UnixComponent::try_from(s).is_ok() as usize + WindowsComponent::try_from(s).is_ok() as usize + WindowsPrefix::try_from(s).is_ok() as usize;
+    {
+        // comparisons between the two variants of the typed types, borrowed / owned / mixed (must return)
+        let (tu, tw) = (TypedPath::unix(s), TypedPath::windows(s));
+        let (bu, bw) = (tu.to_path_buf(), tw.to_path_buf());
+        n += (tu == tw) as usize + (bu == bw) as usize + (tu == bw) as usize + (bw == tu) as usize + (tw == bu) as usize + (bu == tw) as usize;
+        n += tu.partial_cmp(&tw).is_some() as usize + bu.partial_cmp(&bw).is_some() as usize;
+    }
     n += Utf8UnixPath::from_bytes_path(UnixPath::new(s)).is_ok() as usize + Utf8WindowsPathBuf::from_bytes_path_buf(WindowsPathBuf::from(s)).is_ok() as usize;
     if let Ok(st) = std::str::from_utf8(s) {
         let owned = st.to_string();
@@ -1209,6 +1307,12 @@ fn constructors(s: &[u8]) -> usize {
         n += Utf8TypedPathBuf::from_unix(st).as_str().len() + Utf8TypedPathBuf::from_windows(st).as_str().len();
         n += format!("{} {:?} {} {:?}", Utf8UnixPath::new(st), Utf8WindowsPath::new(st), Utf8TypedPath::derive(st), Utf8TypedPath::unix(st)).len();
         n += Utf8UnixComponent::try_from(st).is_ok() as usize + Utf8WindowsComponent::try_from(st).is_ok() as usize + Utf8WindowsPrefix::try_from(st).is_ok() as usize;
+        {
+            let (tu, tw) = (Utf8TypedPath::unix(st), Utf8TypedPath::windows(st));
+            let (bu, bw) = (tu.to_path_buf(), tw.to_path_buf());
+            n += (tu == tw) as usize + (bu == bw) as usize + (tu == bw) as usize + (bw == tu) as usize + (tw == bu) as usize + (bu == tw) as usize;
+            n += tu.partial_cmp(&tw).is_some() as usize + bu.partial_cmp(&bw).is_some() as usize;
+        }
         n += UnixComponent::try_from(st).is_ok() as usize + WindowsComponent::try_from(st).is_ok() as usize;
     }
     n
@@ -1245,13 +1349,16 @@ pub fn c18(ctx: &mut Ctx, tier: &str, seed: u64) {
             crate::util::at(format!("push {} {} {}", gen::e(win), hex(&s[..s.len().min(64)]), hex(&a[..a.len().min(64)])));
             let started = std::time::Instant::now();
             let tb = t_bytes(win, s, a);
-            let tt = t_typed(win, s, a);
+            let tt = no_y(t_typed(win, s, a));
             let h = crate::util::quiet_catch(|| if win { hash_chunks(WindowsPath::new(s)).len() } else { hash_chunks(UnixPath::new(s)).len() });
             let el = started.elapsed();
             ctx.case(true, (name, a));
             ctx.tally(&format!("long:{}", name.split(':').nth(1).unwrap_or("")));
             if tb.iter().any(|l| l == "PANIC") || tt.iter().any(|l| l == "PANIC") || h.is_err() {
                 ctx.fail("panic-on-long-input", None, format!("comps {} {}", gen::e(win), hex(&s[..s.len().min(64)])), format!("shape {} ({} bytes) arg {} bytes", name, s.len(), a.len()));
+            }
+            if a.is_empty() {
+                crate::util::at(format!("derive {}", hex(&s[..s.len().min(96)])));
             }
             if a.is_empty() && crate::util::quiet_catch(|| constructors(s)).is_err() {
                 ctx.fail("panic-in-constructor", None, format!("derive {}", hex(&s[..s.len().min(64)])), format!("shape {}", name));
@@ -1281,6 +1388,7 @@ pub fn c18(ctx: &mut Ctx, tier: &str, seed: u64) {
             if tb.iter().any(|l| l == "PANIC") {
                 ctx.fail("panic", None, format!("comps {} {}", gen::e(win), hex(s)), format!("arg \"{}\"", lossy(a)));
             }
+            crate::util::at(format!("derive {}", hex(&s[..s.len().min(96)])));
             if crate::util::quiet_catch(|| constructors(s)).is_err() {
                 ctx.fail("panic-in-constructor", None, format!("derive {}", hex(s)), "a From / FromStr / TryFrom / derive / Display call panicked".into());
             }
@@ -1302,7 +1410,8 @@ pub fn c18(ctx: &mut Ctx, tier: &str, seed: u64) {
     let aa: Vec<&str> = vec!["", "x", "é", "a.é"];
     for (i, s) in u8d.iter().enumerate() {
         let st = std::str::from_utf8(s).unwrap();
-        if crate::util::quiet_catch(|| constructors(s)).is_err() {
+        crate::util::at(format!("derive {}", hex(&s[..s.len().min(96)])));
+            if crate::util::quiet_catch(|| constructors(s)).is_err() {
             ctx.fail("panic-in-constructor", None, format!("derive {}", hex(s)), "a From / FromStr / TryFrom / derive / Display call panicked".into());
         }
         for win in [false, true] {
